@@ -265,4 +265,103 @@ theorem macInput_eq_iff (a b : AuthIn) (ha : a.WF) (hb : b.WF) (hc : SameClass a
     rw [fixedPart_congr a b hpl h1 h2 h3 h4 h5 h6 h11 h12 h13 h14,
       addrPart_congr a b hc h7 h8 h9, hzz, h12]
 
+/-! ### what `zeroOutMutablePath` drops, field by field -/
+
+theorem zeroSegIDs_encInfos (is : List Info) (rest : Bytes) :
+    zeroSegIDs is.length (encInfos is ++ rest) = some (encInfos (is.map clearSegID) ++ rest) := by
+  induction is with
+  | nil => simp [encInfos, zeroSegIDs]
+  | cons i is ih =>
+    show zeroSegIDs (is.length + 1) (encInfo i ++ encInfos is ++ rest) =
+      some (encInfo (clearSegID i) ++ encInfos (is.map clearSegID) ++ rest)
+    simp only [encInfo, natBE, List.cons_append, List.nil_append, List.append_assoc, zeroSegIDs,
+      clearSegID]
+    rw [ih]
+    simp
+
+theorem zeroHopFlags_encHops (hs : List Hop) (rest : Bytes) :
+    zeroHopFlags hs.length (encHops hs ++ rest) = some (encHops (hs.map clearAlerts) ++ rest) := by
+  induction hs with
+  | nil => simp [encHops, zeroHopFlags]
+  | cons h hs ih =>
+    show zeroHopFlags (hs.length + 1) (encHop h ++ encHops hs ++ rest) =
+      some (encHop (clearAlerts h) ++ encHops (hs.map clearAlerts) ++ rest)
+    have hf : ∃ a b c d e f, fit 6 h.mac = [a, b, c, d, e, f] := by
+      have hl := length_fit 6 h.mac
+      match fit 6 h.mac, hl with
+      | [a, b, c, d, e, f], _ => exact ⟨a, b, c, d, e, f, rfl⟩
+    obtain ⟨a, b, c, d, e, f, hm⟩ := hf
+    simp only [encHop, natBE, List.cons_append, List.nil_append, List.append_assoc, clearAlerts, hm,
+      zeroHopFlags]
+    rw [ih]
+    simp [b2n]
+
+/-- **Structured view of `zeroOutWithBase`**: on a path whose body is the encoding of info fields
+`is` and hop fields `hs` (as many as the meta header announces), the authenticated path bytes are
+the meta line with its first byte (CurrINF, CurrHF) zeroed, the info fields with SegID := 0 and
+the hop fields with both router-alert flags cleared — every other field is kept as it is. -/
+theorem zeroRaw_fields (m : PathMeta.Hdr) (b : PathMeta.Base) (is : List Info) (hs : List Hop)
+    (hb : PathMeta.baseDecode m = some b) (hi : is.length = b.numINF) (hh : hs.length = b.numHops) :
+    zeroRaw m (encInfos is ++ encHops hs) =
+      some (0 :: (natBE 4 (PathMeta.encode m)).drop 1 ++
+        (encInfos (is.map clearSegID) ++ encHops (hs.map clearAlerts))) := by
+  unfold zeroRaw
+  rw [hb]
+  simp only [natBE]
+  have hl : (encInfos is).length = b.numINF * 8 := by rw [length_encInfos, hi]
+  rw [takeN_append' _ _ _ hl]
+  simp only
+  have h1 := zeroSegIDs_encInfos is []
+  have h2 := zeroHopFlags_encHops hs []
+  simp only [List.append_nil] at h1 h2
+  rw [← hi, ← hh, h1, h2]
+  simp
+
+theorem baseDecode_pointers (m : PathMeta.Hdr) (x y : Nat) :
+    PathMeta.baseDecode { m with currINF := x, currHF := y } =
+      (PathMeta.baseDecode m).map fun b => { b with pm := { m with currINF := x, currHF := y } } := by
+  have hs : ∀ i, PathMeta.segLen { m with currINF := x, currHF := y } i = PathMeta.segLen m i := by
+    intro i; unfold PathMeta.segLen; split <;> rfl
+  have hstep : ∀ st i, PathMeta.baseStep { m with currINF := x, currHF := y } st i = PathMeta.baseStep m st i := by
+    intro st i; unfold PathMeta.baseStep; simp only [hs]
+  unfold PathMeta.baseDecode
+  simp only [List.foldl, hstep]
+  split <;> simp
+  split <;> simp
+
+/-- the current info/hop pointers do not enter the authenticated path -/
+theorem zeroRaw_ignores_pointers (m : PathMeta.Hdr) (body : Bytes) (x y : Nat) :
+    zeroRaw { m with currINF := x, currHF := y } body = zeroRaw m body := by
+  unfold zeroRaw
+  rw [baseDecode_pointers]
+  cases hb : PathMeta.baseDecode m with
+  | none => rfl
+  | some b =>
+    simp only [Option.map_some, natBE]
+    have e1 : PathMeta.encode { m with currINF := x, currHF := y } / 256 ^ 2 % 256 =
+        PathMeta.encode m / 256 ^ 2 % 256 := by
+      simp only [PathMeta.encode]; omega
+    have e2 : PathMeta.encode { m with currINF := x, currHF := y } / 256 ^ 1 % 256 =
+        PathMeta.encode m / 256 ^ 1 % 256 := by
+      simp only [PathMeta.encode]; omega
+    have e3 : PathMeta.encode { m with currINF := x, currHF := y } / 256 ^ 0 % 256 =
+        PathMeta.encode m / 256 ^ 0 % 256 := by
+      simp only [PathMeta.encode]; omega
+    rw [e1, e2, e3]
+
+/-- one-hop path: SegID, the first hop's router-alert flags and the whole second hop do not enter
+the authenticated path -/
+theorem zeroPath_onehop_ignores (i : Info) (h1 h2 h2' : Hop) (s : Nat) (a b : Bool) :
+    zeroPath (.onehop { i with segID := s } { h1 with inAlert := a, egAlert := b } h2') =
+      zeroPath (.onehop i h1 h2) := by
+  simp only [zeroPath, encInfo, encHop, natBE, List.cons_append, List.nil_append]
+
+/-- EPIC: the embedded SCION path is treated as a SCION path; PktID, PHVF, LHVF are covered -/
+theorem zeroPath_epic (ts ctr : Nat) (p l : Bytes) (m : PathMeta.Hdr) (body : Bytes)
+    (hp : p.length = 4) (hl : l.length = 4) :
+    zeroPath (.epic ts ctr p l m body) =
+      (zeroRaw m body).map fun z => natBE 4 ts ++ natBE 4 ctr ++ p ++ l ++ z := by
+  simp only [zeroPath, hp, hl]
+  cases zeroRaw m body <;> simp
+
 end Scion.Spao
